@@ -44,6 +44,26 @@ def partial_case(draw, tier):
     return {"model": spec, "pi": pi, "extra": extra}
 
 
+@st.composite
+def wide_partial_case(draw, tier):
+    spec = draw(S.wide_spec(allow_const=True))
+    lv = oracle.spec_leaves(spec)
+    ids = sorted(lv)
+    pi = []
+    for i in ids:
+        lo, hi = lv[i]
+        mode = draw(st.sampled_from([1, 1, 1, 1, 1, 1, 0, 2, 3]))
+        if mode == 0:
+            pi.append([0, 0, 0])
+        elif mode == 1:
+            pi.append([1, draw(st.sampled_from([lo, hi, hi])) if draw(st.booleans()) else draw(st.integers(lo, hi)), 0])
+        else:
+            l = draw(st.integers(lo, hi))
+            pi.append([mode, l, draw(st.integers(l, hi))])
+    extra = draw(st.lists(st.lists(st.integers(0, 70000), min_size=len(ids), max_size=len(ids)), min_size=8, max_size=12))
+    return {"model": spec, "pi": pi, "extra": extra}
+
+
 def check_partial(case, ev):
     import puan
     spec = case["model"]
@@ -182,7 +202,7 @@ def shapes_partial(slice_i, n):
 
 
 def parts(tier):
-    return [Part("flag_shapes%d" % i, enumerate_cases=(lambda t, i=i: shapes(i, 2)), check=check_flags, time_quick=120.0) for i in range(2)] + \
+    return [Part("wide_nodes", strategy=lambda t: wide_partial_case(t), check=check_partial, quick=(2, 150), thorough=(4, 2000))] + [Part("flag_shapes%d" % i, enumerate_cases=(lambda t, i=i: shapes(i, 2)), check=check_flags, time_quick=120.0) for i in range(2)] + \
            [Part("partial_shapes%d" % i, enumerate_cases=(lambda t, i=i: shapes_partial(i, 4)), check=check_partial, time_quick=120.0) for i in range(4)] + [
         Part("partial", strategy=lambda t: partial_case(t), check=check_partial, quick=(6, 350), thorough=(12, 2500)),
         Part("flags", strategy=lambda t: S.model_spec(depth=3, allow_fix=True, allow_const_leaves=True,
